@@ -13,6 +13,7 @@ import (
 	"path"
 	"sort"
 	"sync"
+	"sync/atomic"
 	"syscall"
 	"time"
 )
@@ -151,6 +152,7 @@ func (n *vnode) info(name string) os.FileInfo {
 
 // vfs implements all handler interfaces; which optional ones are visible is decided by the wrapper types below.
 type vfs struct {
+	calls  int64 // number of handler / object method invocations (atomic)
 	mu     sync.Mutex
 	nodes  map[string]*vnode // absolute clean path -> node
 	tr     *tracer
@@ -221,6 +223,7 @@ type vobj struct {
 	closed  int
 	terr    int
 	ents    []os.FileInfo // for listers
+	tag     int           // set by the harness: the (small integer) handle this object belongs to
 }
 
 func (v *vfs) newObj(kind, p string, n *vnode, r *Request) *vobj {
@@ -232,7 +235,24 @@ func (v *vfs) newObj(kind, p string, n *vnode, r *Request) *vobj {
 	return o
 }
 
+// lastObj returns the most recently created object (nil if none).
+func (v *vfs) lastObj() *vobj {
+	v.mu.Lock()
+	defer v.mu.Unlock()
+	if len(v.objs) == 0 {
+		return nil
+	}
+	return v.objs[len(v.objs)-1]
+}
+
+func (v *vfs) nObjs() int {
+	v.mu.Lock()
+	defer v.mu.Unlock()
+	return len(v.objs)
+}
+
 func (o *vobj) begin(rw string, off int64, n int) {
+	atomic.AddInt64(&o.v.calls, 1)
 	o.mu.Lock()
 	o.inflt++
 	o.v.tr.emit("OpBegin", kv{"obj": o.id, "rw": rw, "off": int(off), "len": n, "closed": o.closed})
@@ -322,6 +342,7 @@ func (o *vobj) TransferError(err error) {
 }
 
 func (o *vobj) ListAt(dst []os.FileInfo, off int64) (int, error) {
+	atomic.AddInt64(&o.v.calls, 1)
 	o.mu.Lock()
 	o.inflt++
 	o.v.tr.emit("OpBegin", kv{"obj": o.id, "rw": "L", "off": int(off), "len": len(dst), "closed": o.closed})
@@ -379,6 +400,7 @@ func (v *vfs) fail(key string) error {
 }
 
 func (v *vfs) logReq(h string, r *Request) {
+	atomic.AddInt64(&v.calls, 1)
 	a := r.AttrFlags()
 	f := r.Pflags()
 	fl := 0
@@ -636,14 +658,14 @@ func (v *vfs) listing(r *Request, h string, follow bool) (ListerAt, error) {
 		ents = []os.FileInfo{n.info(path.Base(r.Filepath))}
 	}
 	v.mu.Unlock()
-	o := v.newObj("List", r.Filepath, n, r)
-	o.ents = ents
 	if r.Method == "List" {
+		o := v.newObj("List", r.Filepath, n, r)
+		o.ents = ents
 		v.tr.emit("ObjOpen", kv{"obj": o.id, "kind": "List", "path": r.Filepath})
 		return o, nil
 	}
-	// Stat-like listers are not closed by the server (no handle): return a plain lister without Close
-	return plainLister{o}, nil
+	// Stat-like listers are not closed by the server (no handle): a plain lister without Close, not registered
+	return plainLister{&vobj{v: v, kind: "Stat", path: r.Filepath, node: n, ents: ents}}, nil
 }
 
 type plainLister struct{ o *vobj }
@@ -807,7 +829,7 @@ func (v *vfs) reportObjects() {
 			done = true
 		default:
 		}
-		v.tr.emit("ObjFinal", kv{"obj": o.id, "kind": o.kind, "nclose": o.closed, "nterr": o.terr, "ctxdone": done, "inflight": o.inflt})
+		v.tr.emit("ObjFinal", kv{"obj": o.id, "h": o.tag, "kind": o.kind, "nclose": o.closed, "nterr": o.terr, "ctxdone": done, "inflight": o.inflt})
 		o.mu.Unlock()
 	}
 }
